@@ -43,7 +43,7 @@ from django.template.base import FilterExpression, Parser
 from django.template.context import Context
 from django.template.exceptions import TemplateSyntaxError
 
-from django_components.expression import DynamicFilterExpression, is_dynamic_expression
+from django_components.expression import DynamicFilterExpression, FilteredDynamicExpression, is_dynamic_expression
 
 TAG_WHITESPACE = (" ", "\t", "\n", "\r", "\f")
 TAG_FILTER = ("|", ":")
@@ -113,6 +113,18 @@ class TagValue:
             serialized = serialized[spread_token_offset:]
 
         # Allow to use dynamic expressions as args, e.g. `"{{ }}"` inside of strings
+        #
+        # NOTE: When the string is followed by filters, e.g. `"{{ val }}"|default:"x"`, only the string itself
+        #       is the dynamic expression. Otherwise everything up to the last quote of the last filter argument
+        #       would end up as the source of the nested template.
+        first_part = self.parts[0] if self.parts else None
+        if len(self.parts) > 1 and first_part is not None and first_part.quoted and not first_part.translation:
+            first_serialized = first_part.serialize()[len(first_part.spread or "") :]  # noqa: E203
+            if is_dynamic_expression(first_serialized):
+                filters_serialized = "".join(part.serialize() for part in self.parts[1:])
+                self.compiled = FilteredDynamicExpression(parser, first_serialized, filters_serialized)
+                return
+
         if is_dynamic_expression(serialized):
             self.compiled = DynamicFilterExpression(parser, serialized)
         else:
